@@ -257,9 +257,13 @@ def regen_layouts(scr, verdict, binp, prop, stats):
         # (the generator escapes the component), and that is where the hand-written file lives
         types += [grammar.named("typeref", "IT", ns="gr.internal.time", type="int64", isCustom=False),
                   grammar.record("UsesIT", [grammar.F("at", grammar.R("IT", "gr.internal.time")), grammar.F("ats", {"map": grammar.R("IT", "gr.internal.time")}, optional=True)])]
-        m = {"packageRoot": root, "inputDataTypes": types, "dependencyDataTypes": [], "resources": []}
+        # two records that the REDUCED manifest of the third run no longer has: their files must disappear
+        gone = [grammar.record("Zeta", [grammar.F("z", grammar.P("int32"))]), grammar.record("Omega", [grammar.F("o", grammar.P("string"), optional=True)], ns="gr.internal.time")]
+        m = {"packageRoot": root, "inputDataTypes": types + gone, "dependencyDataTypes": [], "resources": []}
         mf = os.path.join(top, "manifest.json")
         json.dump(m, open(mf, "w"))
+        mf_reduced = os.path.join(top, "manifest-reduced.json")
+        json.dump(dict(m, inputDataTypes=types), open(mf_reduced, "w"))
         gendir = os.path.join(moddir, "gen")                       # where the generated code ends up in both layouts
         outarg, extra = (gendir, []) if layout == "flat" else (top, ["withPackageRoot"])
         os.makedirs(os.path.join(gendir, "gr"))
@@ -291,6 +295,33 @@ def regen_layouts(scr, verdict, binp, prop, stats):
         for twin in (grammar.CUSTOM_TYPEREF_FILE[:-3] + ".gr.go", INTERNAL_TYPEREF_FILE[:-3] + ".gr.go"):
             if twin in runs[1]:
                 verdict.add("%s/regen/%s/custom-typeref-generated/%s" % (prop, layout, twin), "the hand-written custom typeref was not located: %s was generated beside it" % twin, dict(layout=layout))
+        # third run, from the reduced manifest, over the existing output: the result equals a generation of the reduced
+        # manifest into a fresh directory (nothing of the dropped types is left behind), foreign files still untouched
+        pr = subprocess.run([binp, mf_reduced, outarg] + extra, stdout=subprocess.PIPE, stderr=subprocess.STDOUT, text=True, errors="replace", timeout=600)
+        stats["generator_runs"] += 1
+        if pr.returncode != 0:
+            verdict.add("%s/regen/%s/generator-failed/reduced" % (prop, layout), "generation from the reduced manifest failed: %s" % pr.stdout[-1200:], dict(layout=layout))
+        else:
+            third = digest(gendir)
+            ftop = scr.sub("regen-%s-%s-fresh" % (prop.lower(), layout))
+            fgen = os.path.join(ftop, "verifharness", "gen")
+            for p_, c in ((grammar.CUSTOM_TYPEREF_FILE, grammar.CUSTOM_TYPEREF_SRC), (INTERNAL_TYPEREF_FILE, INTERNAL_TYPEREF_SRC)):
+                os.makedirs(os.path.dirname(os.path.join(fgen, p_)), exist_ok=True)
+                with open(os.path.join(fgen, p_), "w") as f:
+                    f.write(c)
+            pf = subprocess.run([binp, mf_reduced, fgen if layout == "flat" else ftop] + extra, stdout=subprocess.PIPE, stderr=subprocess.STDOUT, text=True, errors="replace", timeout=600)
+            stats["generator_runs"] += 1
+            if pf.returncode == 0:
+                fresh = digest(fgen)
+                if own(third) != own(fresh):
+                    stale = sorted(set(own(third)) - set(own(fresh)))
+                    verdict.add("%s/regen/%s/stale-generated-files" % (prop, layout), "regenerating from a reduced manifest over the previous output differs from a fresh generation: left behind %s, differing %s" % (
+                        stale[:6], sorted(k for k in own(fresh) if own(third).get(k) != own(fresh)[k])[:6]), dict(layout=layout))
+            for p_, c in foreign.items():
+                fp = os.path.join(gendir, p_)
+                if not os.path.exists(fp) or open(fp).read() != c:
+                    verdict.add("%s/regen/%s/foreign-file-touched/%s" % (prop, layout, p_), "the generator removed or changed %s, which it does not own" % p_, dict(layout=layout, file=p_))
+            shutil.rmtree(ftop, ignore_errors=True)
         rc, out = go_build(moddir)
         if rc != 0:
             verdict.add("%s/regen/%s/does-not-compile" % (prop, layout), "the regenerated tree does not build: " + out[-800:], dict(layout=layout))
